@@ -718,6 +718,10 @@ func VisitWithTypeInfo(ttypeInfo typeInfo.TypeInfoI, visitorOpts *VisitorOptions
 				fn := GetVisitFn(visitorOpts, node.GetKind(), false)
 				if fn != nil {
 					action, result := fn(p)
+					if action == ActionSkip {
+						// a skipped node is never left by the visitor
+						ttypeInfo.Leave(node)
+					}
 					if action == ActionUpdate {
 						ttypeInfo.Leave(node)
 						if isNode(result) {
